@@ -44,15 +44,18 @@ VLeaves == {s \o m : s \in Sels, m \in {"", " offset 30s", " offset -30s", " @ 1
 MLeaves == {s \o "[" \o r \o "]" \o m : s \in Sels, r \in Rngs, m \in {"", " offset 30s", " @ 100", " @ start()"}}
 SLeaves == {"0", "1", "2", "-1", "0.5", "NaN", "Inf", "-Inf", "1e308", "time()", "pi()", "9223372036854775807"}
 TLeaves == {"\"a\"", "\"\"", "\"__name__\"", "\"le\""}
-Leaves == {[ty |-> "v", s |-> x, d |-> 0, atom |-> TRUE, ill |-> FALSE] : x \in VLeaves}
-     \cup {[ty |-> "m", s |-> x, d |-> 0, atom |-> TRUE, ill |-> FALSE] : x \in MLeaves}
-     \cup {[ty |-> "s", s |-> x, d |-> 0, atom |-> TRUE, ill |-> FALSE] : x \in SLeaves}
-     \cup {[ty |-> "t", s |-> x, d |-> 0, atom |-> TRUE, ill |-> FALSE] : x \in TLeaves}
+Leaves == {[ty |-> "v", s |-> x, d |-> 0, atom |-> TRUE, ill |-> FALSE, nd |-> FALSE] : x \in VLeaves}
+     \cup {[ty |-> "m", s |-> x, d |-> 0, atom |-> TRUE, ill |-> FALSE, nd |-> FALSE] : x \in MLeaves}
+     \cup {[ty |-> "s", s |-> x, d |-> 0, atom |-> TRUE, ill |-> FALSE, nd |-> FALSE] : x \in SLeaves}
+     \cup {[ty |-> "t", s |-> x, d |-> 0, atom |-> TRUE, ill |-> FALSE, nd |-> FALSE] : x \in TLeaves}
 
 -----------------------------------------------------------------------------
 (* Templates: [p |-> pieces, ret |-> type, atom |-> prints as an atom]      *)
 IsHole(x) == x \in {"$v", "$m", "$s", "$t"}
-T(p, r, a) == [p |-> p, ret |-> r, atom |-> a, h |-> SelectSeq(p, IsHole)]
+\* nd: the documentation leaves part of the result open (which of several tied / equally placed elements topk,
+\* bottomk and limitk select), so the result need not be a function of (data, query, parameters)
+T(p, r, a) == [p |-> p, ret |-> r, atom |-> a, h |-> SelectSeq(p, IsHole), nd |-> FALSE]
+ND(tp) == [tp EXCEPT !.nd = TRUE]
 Call1(f, h, r) == T(<<f \o "(", h, ")">>, r, TRUE)
 
 RangeFns == {"rate", "increase", "delta", "irate", "idelta", "resets", "changes", "deriv", "avg_over_time",
@@ -102,8 +105,8 @@ Templates ==
       T(<<"", "$v", "[5m:1m] offset 30s">>, "m", TRUE),
       T(<<"", "$v", "[1m:15s] @ 100">>, "m", TRUE)}
 \cup {T(<<a \o g \o " (", "$v", ")">>, "v", TRUE) : a \in AggOps, g \in Grps}
-\cup {T(<<a \o "(", "$s", ", ", "$v", ")" \o g>>, "v", TRUE) : a \in {"topk", "bottomk", "quantile", "limitk", "limit_ratio"},
-                                                            g \in {"", " by (a)", " without (b)"}}
+\cup {T(<<a \o "(", "$s", ", ", "$v", ")" \o g>>, "v", TRUE) : a \in {"quantile", "limit_ratio"}, g \in {"", " by (a)", " without (b)"}}
+\cup {ND(T(<<a \o "(", "$s", ", ", "$v", ")" \o g>>, "v", TRUE)) : a \in {"topk", "bottomk", "limitk"}, g \in {"", " by (a)", " without (b)"}}
 \cup {T(<<"count_values" \o g \o " (", "$t", ", ", "$v", ")">>, "v", TRUE) : g \in {"", " by (a)"}}
 \cup {T(<<"", "$v", " " \o o \o m \o " ", "$v">>, "v", FALSE) : o \in ArithOps \cup CmpOps, m \in Matchings}
 \cup {T(<<"", "$v", " " \o o \o " bool" \o m \o " ", "$v">>, "v", FALSE) : o \in CmpOps, m \in {"", " on (a)"}}
@@ -121,7 +124,7 @@ Templates ==
 \cup {T(<<"histogram_fraction(" \o c \o ", ", "$v", ")">>, "v", TRUE) : c \in {"0, 1", "1, 0", "-Inf, +Inf", "NaN, 1", "0.5, 0.5"}}
 \cup {T(<<"round(", "$v", ", " \o c \o ")">>, "v", TRUE) : c \in {"0.5", "0", "NaN", "-2", "Inf"}}
 \cup {T(<<"clamp(", "$v", ", " \o c \o ")">>, "v", TRUE) : c \in {"0, 1", "1, 0", "NaN, 1", "-Inf, Inf"}}
-\cup {T(<<a \o "(" \o k \o ", ", "$v", ")" \o g>>, "v", TRUE) : a \in {"topk", "bottomk", "limitk"}, k \in {"1", "2", "0", "-1", "1e308", "scalar(m)"},
+\cup {ND(T(<<a \o "(" \o k \o ", ", "$v", ")" \o g>>, "v", TRUE)) : a \in {"topk", "bottomk", "limitk"}, k \in {"1", "2", "0", "-1", "1e308", "scalar(m)"},
                                                               g \in {"", " by (a)"}}
 \cup {T(<<a \o "(" \o k \o ", ", "$v", ")" \o g>>, "v", TRUE) : a \in {"quantile", "limit_ratio"}, k \in InlineS \cup {"-0.5"}, g \in {"", " by (a)"}}
 \cup {T(<<"count_values" \o g \o " (" \o l \o ", ", "$v", ")">>, "v", TRUE) : g \in {"", " without (a)"}, l \in {"\"v\"", "\"a\"", "\"__name__\""}}
@@ -196,7 +199,8 @@ Apply ==
            bad  == {k \in 1..n : args[k].ty # HoleTy(hs[k])}
        IN /\ stack' = Append(SubSeq(stack, 1, Len(stack) - n),
                              [ty |-> tp.ret, s |-> Fill(tp.p, args), d |-> MaxD(args) + 1, atom |-> tp.atom,
-                              ill |-> (bad # {} \/ \E k \in 1..n : args[k].ill)])
+                              ill |-> (bad # {} \/ \E k \in 1..n : args[k].ill),
+                              nd |-> (tp.nd \/ \E k \in 1..n : args[k].nd)])
   /\ kind' = ""
   /\ UNCHANGED <<batch, data, fin>>
 
@@ -205,7 +209,7 @@ Apply ==
 Done ==
   /\ kind = "dn"
   /\ LET e == stack[Len(stack)] IN
-     \E p \in Params : batch' = Append(batch, [q |-> e.s, ty |-> e.ty, p |-> p, ill |-> e.ill])
+     \E p \in Params : batch' = Append(batch, [q |-> e.s, ty |-> e.ty, p |-> p, ill |-> e.ill, nd |-> e.nd])
   /\ stack' = <<>> /\ kind' = ""
   /\ UNCHANGED <<data, fin>>
 
